@@ -1356,7 +1356,9 @@ def removed_child_is_none(check: Check, repo: Repo, rule: str = "EDIT-SENTINEL")
     body = arms_if[0].orelse
     loops = [l for s in body for l in ast.walk(s) if isinstance(l, ast.For) and "edits" in unparse(l.iter)]
     if not loops:
-        raise AnalysisError("visit(): node arm does not iterate the edits")
+        check.ob(rule, arms_if[0], "node arm: every recorded edit is stored under its key (REMOVE as None)", False,
+                 "the node arm does not go through the edits one by one, so a removed child cannot be turned into None")
+        return
     for lp in loops:
         key = unparse(lp.target.elts[0]) if isinstance(lp.target, ast.Tuple) else None
         stores = [s for s in ast.walk(lp) if isinstance(s, ast.Assign) and isinstance(s.targets[0], ast.Subscript) and unparse(s.targets[0].slice) == key]
